@@ -1,7 +1,7 @@
 CONSTANTS
-  Prog <- P_hb3
+  Prog <- P_hb4
   Mult = 32
-  MaxW = 2
+  MaxW = 1
   GS = 2
   SS = 2
   RingCap = 2
